@@ -115,7 +115,7 @@ pub fn check_proxy(run: &mut Run) {
             let too_large = body_len > limit;
             // reference outcome(s): against the document in force, and the previous one during a transition
             let mut outcomes = vec![rbac::endpoint_outcome(&phase.doc, &recorded_dst, &caller, &rq.target)];
-            if let Some(pd) = &phase.prev_doc {
+            for pd in phase.prev_docs.iter() {
                 outcomes.push(rbac::endpoint_outcome(pd, &recorded_dst, &caller, &rq.target));
             }
             let may_relay = outcomes.iter().any(|o| matches!(o, Outcome::Relay | Outcome::RelayAudit | Outcome::Either));
@@ -178,7 +178,7 @@ pub fn check_proxy(run: &mut Run) {
             }
 
             // ---------------- C02 decision equals the declared semantics (observed end to end)
-            if on("C02") && attributed && !traversal && !too_large && !provision && phase.prev_doc.is_none() {
+            if on("C02") && attributed && !traversal && !too_large && !provision && phase.prev_docs.is_empty() {
                 if let Some(st) = status {
                     let exp = outcomes[0];
                     let dup = {
@@ -238,7 +238,7 @@ pub fn check_proxy(run: &mut Run) {
                 let m = &rv.msg;
                 // C04 / C10 signature
                 if on("C04") || on("C10") {
-                    let key_expected = phase.latched_guid.is_some() && phase.prev_doc.is_none() && doc_enabled(&phase.doc);
+                    let key_expected = phase.latched_guid.is_some() && phase.prev_docs.is_empty() && doc_enabled(&phase.doc);
                     match &rv.sig {
                         SigCheck::Valid { guid, .. } => {
                             bump("sig.valid");
@@ -300,13 +300,13 @@ pub fn check_proxy(run: &mut Run) {
                         }
                         if ln == "x-ms-azure-host-authorization" {
                             let signed = matches!(rv.sig, SigCheck::Valid { .. } | SigCheck::Invalid { .. } | SigCheck::Malformed(_));
-                            let key_latched = phase.latched_guid.is_some() && phase.prev_doc.is_none() && doc_enabled(&phase.doc);
+                            let key_latched = phase.latched_guid.is_some() && phase.prev_docs.is_empty() && doc_enabled(&phase.doc);
                             if key_latched && !exempt && m.head.get_all(&ln).iter().any(|x| x.as_slice() == v.as_slice()) {
                                 viol.push(("C05".into(), "client-supplied authorization header reached the host on a signed request".into(), format!("tok={} signed={}", rq.tok, signed)));
                             }
                         }
                     }
-                    if m.head.count("x-ms-azure-host-authorization") > 1 && phase.latched_guid.is_some() && phase.prev_doc.is_none() && doc_enabled(&phase.doc) && !exempt {
+                    if m.head.count("x-ms-azure-host-authorization") > 1 && phase.latched_guid.is_some() && phase.prev_docs.is_empty() && doc_enabled(&phase.doc) && !exempt {
                         viol.push(("C05".into(), "more than one authorization header at the host".into(), rq.tok.clone()));
                     }
                     bump("c05.checked");
@@ -435,7 +435,12 @@ pub fn check_proxy(run: &mut Run) {
     // ---------------- byte level: an upstream connection that carried bytes must show a complete request
     if on("C01") && !faults_flowing {
         let with_req: std::collections::BTreeSet<u64> = h.log.iter().map(|r| r.conn).collect();
+        let now = vrt::time::now_ns();
         for ci in vrt::net::conn_infos() {
+            // a call of the agent's own that is still in flight when the run stops is not judged
+            if now.saturating_sub(ci.opened_ns) < 2_500_000_000 {
+                continue;
+            }
             if ci.initiator.tgid == vrt::procs::AGENT_PID && ci.bytes_out > 0 && !with_req.contains(&ci.id) {
                 viol.push(("C01".into(), "bytes sent upstream that are not a complete, accounted request".into(), format!("conn={} dst={} bytes={}", ci.id, ci.actual_dst, ci.bytes_out)));
             }
